@@ -129,6 +129,17 @@ example :
     ((chunkDocument (fun _ => none) [⟨1, none, [.heading 2 [97], .heading 1 [98]]⟩]).map (·.path))
       = [[[97]], [[98]]] := by decide
 
+/-- a heading text that recurs on one page at another level, both delivered as heading-like
+paragraphs: Layout.Headings = [H2 a, H4 a], elements a, x, a, y. The second `a` takes the level
+of its own entry (4) and nests under the first (`resolveRepeatedHeadings`; matched by text alone
+the pinned code gave it level 2 and the path [a]). On the next page the same text is matched
+with the entries of that page. -/
+example :
+    ((chunkDocument (fun _ => none)
+        [⟨1, some [(2, [97]), (4, [97])], [.para [97], .para [120], .para [97], .para [121]]⟩,
+         ⟨2, some [(3, [97])], [.para [97], .para [122]]⟩]).map (·.path))
+      = [[[97]], [[97]], [[97], [97]], [[97], [97]], [[97], [97]], [[97], [97]]] := by decide
+
 /-- **Paths are not reached by later content** (the value-level form of "not aliased"): for a
 fixed table of contents, the chunks of the first pages — texts, indices and section paths —
 are the same whatever pages follow, and within a page the chunks emitted for the first
